@@ -69,9 +69,13 @@ fn one_case(d: &mut Draw) -> Outcome {
     let ws = Workspace::new("c27", &p.cfg.name);
     let mut ed = Editor::create(&p, &ws);
     let initial = p.summary();
+    let cyclic_replaced = p.counter_cyclic_placements > 0;
     let mut steps: Vec<String> = vec![];
     let mut classes: BTreeSet<String> = BTreeSet::new();
 
+    if cyclic_replaced {
+        classes.insert("excluded_file_cycle_placement_replaced".into());
+    }
     // ---- bring the tree into a state ---------------------------------------
     let formatted = d.chance(8, 10);
     if formatted {
@@ -234,7 +238,7 @@ fn one_case(d: &mut Draw) -> Outcome {
 }
 
 pub fn run(ctx: &Ctx) {
-    let mut n = ctx.scale(260, 8000);
+    let mut n = ctx.scale(220, 8000);
     if let Some(k) = std::env::var("VERIF_C27_CASES").ok().and_then(|x| x.parse().ok()) {
         n = k; // development aid
     }
